@@ -74,6 +74,11 @@ func (this *QRCodeWriter) Encode(
 		}
 	}
 
+	if quietZone < 0 {
+		return nil, gozxing.NewWriterException(
+			"IllegalArgumentException: EncodeHintType_MARGIN must not be negative: %v", quietZone)
+	}
+
 	code, e := encoder.Encoder_encode(contents, errorCorrectionLevel, hints)
 	if e != nil {
 		return nil, e
